@@ -12,6 +12,7 @@
 import FordModel.Scope
 import FordModel.ScopeSpec
 import FordModel.Lemmas.Scope
+import FordModel.Lemmas.ScopeUse
 import FordModel.Generated.C07
 namespace Ford.C07
 open Ford Ford.Scope
@@ -70,6 +71,82 @@ theorem unresolved_stays_text (ch : List Frame) (s : Slot)
 theorem case_insensitive (tb : Tabs) (i j : Nat) (k : SK) (ph ph' : Phase) (n m : Str)
     (h : lower n = lower m) : lookupSlot tb ⟨i, k, ph, n⟩ = lookupSlot tb ⟨j, k, ph', m⟩ := by
   simp [lookupSlot, h]
+
+/-! ### use association: what one USE statement makes visible, and under which name
+
+  The frames of the specification are built from `importTable` (the model of
+  `FortranModule.get_used_entities`); the theorems below tie `importTable` to Fortran's rule
+  `useDenotes`, which is written without reference to the mechanism (no dict, no iteration
+  order): a renamed entity is accessible by its local name and by nothing else. -/
+
+/-- **use_association_correct.**  For every USE statement - without list, with renames, with an
+    ONLY list with or without renames, any spelling - and every name `n`: what the statement
+    enters into the using scope's table under `n` is exactly the entity Fortran's rule designates
+    (the module's entity `r` for a local name `n => r`; nothing for a name not on an ONLY list;
+    nothing for the module's name of an entity that was renamed away; the module's entity `n`
+    otherwise).  `useOK` excludes only statements that are ambiguous (one entity given two local
+    names, one local name given to two entities, a rename onto the name of another accessible
+    entity of the same module). -/
+theorem use_association_correct (pub : Table) (m : Str) (only : Bool) (items : List (Str × Str)) (n : Str)
+    (ok : useOK pub ⟨m, only, items⟩ = true) :
+    tget (importTable pub ⟨m, only, items⟩) n = useDenotes pub ⟨m, only, items⟩ n :=
+  importTable_denotes pub m only items n ok
+
+/-- **use_import_sound** (no hypothesis): whatever a USE statement makes visible under a name `n`
+    is a public entity `k` of the used module, and `n` is the local name given to `k` on the
+    statement or - only without ONLY and only if `k` is not renamed - `k` itself. -/
+theorem use_import_sound (pub : Table) (m : Str) (only : Bool) (items : List (Str × Str)) (n : Str) (e : Ent)
+    (h : tget (importTable pub ⟨m, only, items⟩) n = some e) :
+    ∃ k, tget pub k = some e ∧
+      ((n, k) ∈ useItems ⟨m, only, items⟩ ∨
+        (only = false ∧ k = n ∧ ∀ l, (l, k) ∉ useItems ⟨m, only, items⟩)) := by
+  obtain ⟨k, hk, hn⟩ := importTable_sound pub ⟨m, only, items⟩ n e h
+  exact ⟨k, hk, localName_cases m only items k n hn⟩
+
+/-- **renamed_original_hidden** (no hypothesis on the module): the module-side name of a renamed
+    entity, when it is not itself a local name on the statement, is NOT made visible by that
+    statement - so in the using scope it keeps denoting the scope's own or its host's entity of
+    that name, or nothing (text). -/
+theorem renamed_original_hidden (pub : Table) (m : Str) (only : Bool) (items : List (Str × Str)) (n l : Str)
+    (hren : (l, n) ∈ useItems ⟨m, only, items⟩) (hloc : ∀ r, (n, r) ∉ useItems ⟨m, only, items⟩) :
+    tget (importTable pub ⟨m, only, items⟩) n = none := by
+  cases hi : tget (importTable pub ⟨m, only, items⟩) n with
+  | none => rfl
+  | some e =>
+    obtain ⟨k, _, h1 | ⟨_, hkn, hno⟩⟩ := use_import_sound pub m only items n e hi
+    · exact absurd h1 (hloc k)
+    · subst hkn; exact absurd hren (hno l)
+
+/-- module m0 declares types ta (1), tb (2) and procedure pa (5).  Module m1 declares its own
+    ta (3), does `use m0, te => ta, pe => pa` and refers to ta, te, tb, pa, pe (slots 0-4); its
+    subroutine pb does `use m0, TE => TA` again and refers to ta, te (slots 5, 6). -/
+def wRename : List (Bool × Scope) :=
+  [(true, .mk ['m','0'] 0 false [] [⟨.ty, ['t','a'], 1⟩, ⟨.ty, ['t','b'], 2⟩] []
+      (.cons (.mk ['p','a'] 5 false [] [] [] .nil) .nil)),
+   (true, .mk ['m','1'] 6 false [⟨['m','0'], false, [(['t','e'], ['t','a']), (['p','e'], ['p','a'])]⟩]
+      [⟨.ty, ['t','a'], 3⟩]
+      [⟨0, .ty, .late, ['t','a']⟩, ⟨1, .ty, .late, ['t','e']⟩, ⟨2, .ty, .late, ['t','b']⟩,
+       ⟨3, .pa, .late, ['p','a']⟩, ⟨4, .pa, .late, ['p','e']⟩]
+      (.cons (.mk ['p','b'] 7 false [⟨['M','0'], false, [(['T','E'], ['T','A'])]⟩] []
+        [⟨5, .ty, .late, ['t','a']⟩, ⟨6, .ty, .late, ['t','e']⟩] .nil) .nil))]
+
+/-- **rename_keeps_own_entity_witness**: with the rename, `ta` is the using module's own type (3)
+    - also from the nested procedure that renames again -, `te` is m0's (1), the untouched `tb`
+    comes through (2), the renamed-away `pa` stays text and `pe` is m0's procedure; model (both
+    variants) = specification. -/
+theorem rename_keeps_own_entity_witness :
+    (corrProject repaired [] wRename).map (·.2) = [some 3, some 1, some 3, some 1, some 2, none, some 5] ∧
+      (corrProject asIs [] wRename).map (·.2) = (corrProject repaired [] wRename).map (·.2) ∧
+      (specProject [] wRename).map (·.2) = (corrProject repaired [] wRename).map (·.2) := by decide
+
+/-- non-vacuity of `useOK` and of the hypotheses of `renamed_original_hidden` -/
+example : useOK [(['t','b'], 2), (['t','a'], 1)] ⟨['m','0'], false, [(['T','e'], ['t','A'])]⟩ = true ∧
+    tget (importTable [(['t','b'], 2), (['t','a'], 1)] ⟨['m','0'], false, [(['T','e'], ['t','A'])]⟩) ['t','e'] = some 1 ∧
+    tget (importTable [(['t','b'], 2), (['t','a'], 1)] ⟨['m','0'], false, [(['T','e'], ['t','A'])]⟩) ['t','a'] = none ∧
+    tget (importTable [(['t','b'], 2), (['t','a'], 1)] ⟨['m','0'], false, [(['T','e'], ['t','A'])]⟩) ['t','b'] = some 2 := by
+  decide
+/-- the class `useOK` excludes: `use m0, tb => ta` where m0 also exports a tb -/
+example : useOK [(['t','b'], 2), (['t','a'], 1)] ⟨['m','0'], false, [(['t','b'], ['t','a'])]⟩ = false := by decide
 
 /-! ### what still holds for the code as found (variant `asIs`) -/
 
@@ -194,6 +271,26 @@ theorem host_tables_generated :
     (Ford.C07Gen.hostTables.map (·.1) = ["all_procs", "all_absinterfaces", "all_types"]) ∧
       (Ford.C07Gen.hostTables.all fun x =>
         x.2 == "update" || x.2 == "alias" || x.2 == "copy" || x.2 == "merge-local-over-host") = true := by
+  decide
+
+/-- `FortranModule.get_used_entities` has the shape the model's `usedObjects` / `usedNames`
+    transcribe: `result` starts as an EMPTY dict and receives one write per public entity of the
+    module - under `used_names[name]` if listed (ONLY), under `used_names.get(name, name)`
+    without ONLY - and nothing else touches it; `used_names` maps the module's name to the local
+    name; a USE without list hands out the public tables themselves. -/
+theorem used_objects_generated :
+    Ford.C07Gen.usedObjectsInit = ["{}"] ∧
+      Ford.C07Gen.usedObjectsLoops = ["object_collection.items()"] ∧
+      Ford.C07Gen.usedObjectsWrites =
+        [("only and name in used_names", "used_names[name]", "obj"),
+         ("not (only)", "used_names.get(name, name)", "obj")] ∧
+      Ford.C07Gen.usedObjectsOther = [] ∧
+      Ford.C07Gen.usedObjectsCalls =
+        ["'pub_procs', only", "'pub_absints', only", "'pub_types', only", "'pub_vars', only"] ∧
+      Ford.C07Gen.usedNamesWrites.map (fun w => (w.2.1, w.2.2)) =
+        [("match.group(2).lower()", "match.group(1).lower()"), ("item.lower()", "item.lower()")] ∧
+      Ford.C07Gen.useWithoutList =
+        ("len(use_specs.strip()) == 0", "(self.pub_procs, self.pub_absints, self.pub_types, self.pub_vars)") := by
   decide
 
 end Ford.C07
